@@ -144,7 +144,7 @@ func main() {
 	freepass.MaybeReplay(run)
 	c := ctx{run}
 	run.Rule("write side: every message length in {0,4,..,520} u {1016,1020,1024,65536,2^20} and every sequence of <=3 lengths over {0,4,504,508,512,1024}, both modes, against a reference framer; every sequence of <=3 write/read operations over lengths {4,508,1024,262144} on one mode object (both directions share it); read side through the real tcpConn read path (CancelableReader, io.ReadFull) over a reader whose chunking is enumerated: every composition of streams up to N bytes, every single cut, every pair of cuts within 8 bytes of a frame boundary, byte-at-a-time and all-at-once for longer ones; 4-byte error frames; end of stream at every byte; non-trivial = a read case with at least one cut")
-	run.Assume("OS-level TCP segmentation cannot be owned; the reader seam below tcpConn's CancelableReader stands for the socket (a loopback run is not part of the deciding enumeration)")
+	run.Assume("OS-level TCP segmentation cannot be owned: in the exhaustive enumeration of segmentations the reader seam below tcpConn's CancelableReader stands for the socket; the loopback pass (real socket through transport.NewTCP, paced writes, pauses) is judged on the messages only and a case that reaches its read timeout is counted, not judged")
 	variants := []mode.Variant{mode.Abridged, mode.Intermediate}
 	N := 14
 	if run.Thorough() {
